@@ -598,4 +598,39 @@ Section LigeroFacts.
     destruct (path_loop _ (lf_cols pf) idx (lf_paths pf)) as [[]| |]; cbn [bind] in C |- *; try discriminate.
     exact C.
   Qed.
+  (* ---------------- several polynomials ---------------- *)
+  (* an item built by the honest prover for an encoder with the column relation *)
+  Definition honest_item (wf : bool) (it : LItem) : Prop :=
+    exists n_ext rows a b,
+      (forall v j, (j < n_ext)%nat -> ip v (col j (map (li_enc it) rows)) = nth j (li_enc it (rowcomb rows (li_n_cols it) v)) 0) /\
+      li_ab it = Ok (a, b) /\
+      l_open_e (li_enc it) wf (li_n_cols it) n_ext rows b (li_r it) (li_idx it) = Ok (li_pf it) /\
+      li_cext it = map (li_enc it) rows /\
+      li_value it = ip (lf_v (li_pf it)) a.
+
+  Lemma l_check_item_honest wf it : honest_item wf it -> l_check_item wf it = Ok true.
+  Proof.
+    intros (n_ext & rows & a & b & Hc & Hab & Ho & Hx & Hv).
+    pose proof (lincode_complete (li_enc it) n_ext (li_n_cols it) rows Hc wf b (li_r it) (li_idx it) (li_pf it) a Ho) as C.
+    unfold l_check_item. rewrite Hab, Hx, Hv. cbn [bind fst snd].
+    unfold l_check_e in C |- *.
+    destruct (negb (length (lf_v (li_pf it)) =? li_n_cols it)%nat); [discriminate|].
+    match type of C with context [bind ?X _] => destruct X as [out| |] end; cbn [bind] in C |- *; try discriminate.
+    destruct (path_loop _ (lf_cols (li_pf it)) (li_idx it) (lf_paths (li_pf it))) as [[]| |]; cbn [bind] in C |- *; try discriminate.
+    exact C.
+  Qed.
+
+  Theorem l_check_all_complete wf : forall items, Forall (honest_item wf) items -> l_check_all wf items = Ok true.
+  Proof.
+    induction items as [|it items IH]; intros H; [reflexivity|].
+    inversion H as [|? ? H1 H2]; subst. cbn [l_check_all]. rewrite (l_check_item_honest wf it H1). cbn [bind]. apply IH. exact H2.
+  Qed.
+
+  (* the loop accepts only if every single item is accepted: no position is skipped *)
+  Theorem l_check_all_every_item wf : forall items, l_check_all wf items = Ok true -> Forall (fun it => l_check_item wf it = Ok true) items.
+  Proof.
+    induction items as [|it items IH]; intros H; [constructor|].
+    cbn [l_check_all] in H. destruct (l_check_item wf it) as [[|]| |] eqn:E; cbn [bind] in H; try discriminate.
+    constructor; [exact E|apply IH; exact H].
+  Qed.
 End LigeroFacts.
